@@ -8,15 +8,16 @@
 package verifspec
 
 // Contract clauses (only meaningful inside //kvc:contract functions).
-func Requires(cond bool)                    {}
-func Ensures(label string, cond bool)       {}
-func Modifies(locations ...any)             {}
-func ModifiesAll()                          {}
-func Allocates()                            {}
-func Effect()                               {}
-func Monitor(label string, cond bool)       {}
+func Requires(cond bool)                                {}
+func Ensures(label string, cond bool)                   {}
+func Modifies(locations ...any)                         {}
+func ModifiesAll()                                      {}
+func Allocates()                                        {}
+func Effect()                                           {}
+func Monitor(label string, cond bool)                   {}
+func Witness(label string, v any)                       {}
 func Invariant(label string, cond bool, deps ...string) {}
-func Decreases(measure int)                 {}
+func Decreases(measure int)                             {}
 
 // Modifies helpers.
 func FieldOfAll(field any) any { return field }
@@ -28,12 +29,12 @@ func Assert(label string, cond bool) {
 		panic("verifspec.Assert failed: " + label)
 	}
 }
-func Assume(cond bool)         {}
-func CrashPoint(label string)  {}
-func NondetBool() bool         { return false }
-func NondetInt() int           { return 0 }
-func NondetString() string     { return "" }
-func SomeError() error         { return errSome }
+func Assume(cond bool)        {}
+func CrashPoint(label string) {}
+func NondetBool() bool        { return false }
+func NondetInt() int          { return 0 }
+func NondetString() string    { return "" }
+func SomeError() error        { return errSome }
 
 type someError struct{}
 
@@ -86,13 +87,13 @@ func ExistsRange(lo, hi int, body func(i int) bool) bool {
 }
 
 // Unbounded quantifiers: proof-only (not executable).
-func ForallInt(body func(i int) bool) bool          { panic("verifspec: proof-only quantifier") }
-func ForallInt2(body func(i, j int) bool) bool      { panic("verifspec: proof-only quantifier") }
-func ExistsInt(body func(i int) bool) bool          { panic("verifspec: proof-only quantifier") }
-func ForallString(body func(s string) bool) bool    { panic("verifspec: proof-only quantifier") }
-func ExistsString(body func(s string) bool) bool    { panic("verifspec: proof-only quantifier") }
-func ForallPtr[T any](body func(p *T) bool) bool    { panic("verifspec: proof-only quantifier") }
-func ExistsPtr[T any](body func(p *T) bool) bool    { panic("verifspec: proof-only quantifier") }
+func ForallInt(body func(i int) bool) bool       { panic("verifspec: proof-only quantifier") }
+func ForallInt2(body func(i, j int) bool) bool   { panic("verifspec: proof-only quantifier") }
+func ExistsInt(body func(i int) bool) bool       { panic("verifspec: proof-only quantifier") }
+func ForallString(body func(s string) bool) bool { panic("verifspec: proof-only quantifier") }
+func ExistsString(body func(s string) bool) bool { panic("verifspec: proof-only quantifier") }
+func ForallPtr[T any](body func(p *T) bool) bool { panic("verifspec: proof-only quantifier") }
+func ExistsPtr[T any](body func(p *T) bool) bool { panic("verifspec: proof-only quantifier") }
 
 // Has reports whether key k is present in map m.
 func Has[K comparable, V any](m map[K]V, k K) bool { _, ok := m[k]; return ok }
